@@ -46,30 +46,64 @@ def val(e):
     return Fr(e.numerator_as_long(), e.denominator_as_long())
 
 
-class Sym:
-    __slots__ = ('a', 'n', 'd')
+def _fr(x):
+    """Exact rational value of a Python/NumPy number under the float policy (None if not a number)."""
+    if isinstance(x, (bool, np.bool_, int, np.integer)):
+        return Fr(int(x))
+    if isinstance(x, (float, np.floating)):
+        x = float(x)
+        fr = Fr(x)
+        if Ctx.snap:
+            sn = fr.limit_denominator(10 ** 4)
+            if sn == fr or abs(float(sn) - x) <= 8 * np.spacing(abs(x)):
+                fr = sn
+        return fr
+    if isinstance(x, Fr):
+        return x
+    return None
 
-    def __init__(self, a, n=None, d=None):
-        self.a = a
-        self.n = a if n is None else n
+
+_F0, _F1 = Fr(0), Fr(1)
+
+
+class Sym:
+    """c: exact constant (Fraction) or None;  _a: z3 term (lazy for constants);  _n/d: rational normal form."""
+    __slots__ = ('_a', '_n', 'd', 'c')
+
+    def __init__(self, a=None, n=None, d=None, c=None):
+        if c is None and a is not None and z3.is_rational_value(a):
+            c = Fr(a.numerator_as_long(), a.denominator_as_long())
+        self._a = a
+        self._n = n
         self.d = d or {}
+        self.c = c
+
+    @property
+    def a(self):
+        if self._a is None:
+            self._a = z3.RealVal(self.c)
+        return self._a
+
+    @property
+    def n(self):
+        return self._n if self._n is not None else self.a
 
     @staticmethod
     def lift(x):
         if isinstance(x, Sym):
             return x
-        c = const(x)
-        return None if c is None else Sym(c)
+        c = _fr(x)
+        return None if c is None else Sym(c=c)
 
     @staticmethod
     def var(name):
         return Sym(z3.Real(name))
 
     def is_const(self):
-        return isnum(self.a)
+        return self.c is not None
 
     def value(self):
-        return val(self.a)
+        return self.c
 
     def den(self):
         r = ONE
@@ -86,16 +120,18 @@ class Sym:
         return n
 
     def __add__(s, o):
-        o = Sym.lift(o)
-        if o is None:
-            return NotImplemented
-        sa, oa = isnum(s.a), isnum(o.a)
-        if sa and val(s.a) == 0:
-            return o
-        if oa and val(o.a) == 0:
+        if not isinstance(o, Sym):
+            o = Sym.lift(o)
+            if o is None:
+                return NotImplemented
+        sc, oc = s.c, o.c
+        if sc is not None:
+            if oc is not None:
+                return Sym(c=sc + oc)
+            if sc == 0:
+                return o
+        elif oc is not None and oc == 0:
             return s
-        if sa and oa:
-            return Sym(z3.RealVal(val(s.a) + val(o.a)))
         if not s.d and not o.d:
             return Sym(s.a + o.a, s.n + o.n)
         l = dict(s.d)
@@ -107,35 +143,42 @@ class Sym:
     __radd__ = __add__
 
     def __neg__(s):
-        if isnum(s.a):
-            return Sym(z3.RealVal(-val(s.a)))
+        if s.c is not None:
+            return Sym(c=-s.c)
         return Sym(-s.a, -s.n, s.d)
 
     def __pos__(s):
         return s
 
     def __sub__(s, o):
-        o = Sym.lift(o)
-        return NotImplemented if o is None else s + (-o)
+        if not isinstance(o, Sym):
+            o = Sym.lift(o)
+            if o is None:
+                return NotImplemented
+        return s + (-o)
 
     def __rsub__(s, o):
         o = Sym.lift(o)
         return NotImplemented if o is None else o + (-s)
 
     def __mul__(s, o):
-        o = Sym.lift(o)
-        if o is None:
-            return NotImplemented
-        sa, oa = isnum(s.a), isnum(o.a)
-        if sa and oa:
-            return Sym(z3.RealVal(val(s.a) * val(o.a)))
-        for x, y in ((s, o), (o, s)):
-            if isnum(x.a):
-                v = val(x.a)
-                if v == 0:
-                    return Sym(ZERO)
-                if v == 1:
-                    return y
+        if not isinstance(o, Sym):
+            o = Sym.lift(o)
+            if o is None:
+                return NotImplemented
+        sc, oc = s.c, o.c
+        if sc is not None:
+            if oc is not None:
+                return Sym(c=sc * oc)
+            if sc == 0:
+                return Sym(c=_F0)
+            if sc == 1:
+                return o
+        elif oc is not None:
+            if oc == 0:
+                return Sym(c=_F0)
+            if oc == 1:
+                return s
         if not s.d and not o.d:
             return Sym(s.a * o.a, s.n * o.n)
         l = dict(s.d)
@@ -146,29 +189,36 @@ class Sym:
     __rmul__ = __mul__
 
     def inv(s):
-        if isnum(s.a):
-            return Sym(z3.RealVal(1 / val(s.a)))
+        if s.c is not None:
+            return Sym(c=1 / s.c)
         if Ctx.cur is not None:
             Ctx.cur.note_den(s)
         return Sym(ONE / s.a, s.den(), {s.n.get_id(): (s.n, 1)})
 
     def __truediv__(s, o):
-        o = Sym.lift(o)
-        return NotImplemented if o is None else s * o.inv()
+        if not isinstance(o, Sym):
+            o = Sym.lift(o)
+            if o is None:
+                return NotImplemented
+        if o.c is not None:
+            return s * Sym(c=1 / o.c)
+        return s * o.inv()
 
     def __rtruediv__(s, o):
         o = Sym.lift(o)
         return NotImplemented if o is None else o * s.inv()
 
     def __pow__(s, k):
-        if isinstance(k, Sym) and k.is_const():
-            k = float(k.value())
+        if isinstance(k, Sym) and k.c is not None:
+            k = float(k.c)
         if isinstance(k, (float, np.floating)) and float(k).is_integer():
             k = int(k)
         if isinstance(k, (int, np.integer)):
+            if s.c is not None:
+                return Sym(c=s.c ** int(k))
             if k < 0:
                 return (s ** (-int(k))).inv()
-            r = Sym(ONE)
+            r = Sym(c=_F1)
             for _ in range(int(k)):
                 r = r * s
             return r
@@ -180,34 +230,40 @@ class Sym:
         return NotImplemented
 
     def __rpow__(s, b):
-        if s.is_const() and s.value().denominator == 1:
-            return Sym.lift(b) ** int(s.value())
+        if s.c is not None and s.c.denominator == 1:
+            return Sym.lift(b) ** int(s.c)
         return NotImplemented
 
     def sqrt(s):
         return root(s, 2)
 
     def __abs__(s):
-        if isnum(s.a):
-            return Sym(z3.RealVal(abs(val(s.a))))
+        if s.c is not None:
+            return Sym(c=abs(s.c))
         return s if bool(s >= 0) else -s
 
     def __round__(s, nd=None):
         return s
 
     def __float__(s):
-        if isnum(s.a):
-            return float(val(s.a))
+        if s.c is not None:
+            return float(s.c)
         raise TypeError('float() of a symbolic value')
 
+    def __int__(s):
+        if s.c is not None and s.c.denominator == 1:
+            return int(s.c)
+        raise TypeError('int() of a symbolic value')
+
     def _cmp(s, o, op):
-        o = Sym.lift(o)
-        if o is None:
-            return NotImplemented
-        if isnum(s.a) and isnum(o.a):
-            return bool(op(val(s.a), val(o.a)))
+        if not isinstance(o, Sym):
+            o = Sym.lift(o)
+            if o is None:
+                return NotImplemented
+        if s.c is not None and o.c is not None:
+            return bool(op(s.c, o.c))
         cur = Ctx.cur
-        if cur is not None:
+        if cur is not None and cur.rad:
             ra, rb = cur.rad.get(s.a.get_id()), cur.rad.get(o.a.get_id())
             if ra is not None and rb is not None and ra[1] == rb[1]:
                 # monotonicity of the k-th root on [0, oo): compare radicands
@@ -235,6 +291,8 @@ class Sym:
     __hash__ = None
 
     def __repr__(s):
+        if s.c is not None:
+            return 'Sym(%s)' % s.c
         t = str(z3.simplify(s.a))
         return 'Sym(%s)' % (t if len(t) < 80 else t[:77] + '...')
 
@@ -250,15 +308,15 @@ class Sym:
 
     @property
     def imag(s):
-        return Sym(ZERO)
+        return Sym(c=_F0)
 
 
 def root(s, k):
-    if isnum(s.a):
-        v = val(s.a)
+    if s.c is not None:
+        v = s.c
         for cand in (Fr(round(float(v) ** (1.0 / k) * 10 ** 6), 10 ** 6).limit_denominator(10 ** 4),):
             if cand ** k == v:
-                return Sym(z3.RealVal(cand))
+                return Sym(c=cand)
     if Ctx.cur is None:
         raise RuntimeError('root of a symbolic value outside an explorer')
     return Ctx.cur.root(s, k)
@@ -312,7 +370,7 @@ def const_arr(x):
     a = np.empty(x.shape, dtype=object)
     for idx in np.ndindex(*x.shape):
         v = x[idx]
-        a[idx] = v if isinstance(v, Sym) else Sym(const(v))
+        a[idx] = v if isinstance(v, Sym) else Sym.lift(v)
     return a
 
 
@@ -334,3 +392,7 @@ def flat_syms(x):
             yield idx, tosym(x[idx])
     else:
         yield (), tosym(x)
+
+
+import numbers as _numbers
+_numbers.Number.register(Sym)
